@@ -191,8 +191,35 @@ def rectangular (m : List (List Rat)) : Bool :=
   | r :: rs => rs.all (fun x => x.length == r.length)
 def square (m : List (List Rat)) : Bool := m.all (fun r => r.length == m.length)
 
+def optRat? : Sexp → Option (Option Rat)
+  | .atom "nan" => some none
+  | .atom s => (rat? s).map some
+  | _ => none
+
+def optRats? (x : Sexp) : Option (List (Option Rat)) := do
+  let xs ← x.asList?
+  xs.mapM optRat?
+
+def optMat? (x : Sexp) : Option (List (List (Option Rat))) := do
+  let xs ← x.asList?
+  xs.mapM optRats?
+
+def optOut : Option Rat → Sexp
+  | some q => ratOut q
+  | none => .atom "nan"
+def optsOut (xs : List (Option Rat)) : Sexp := .list (xs.map optOut)
+
 def handleStats (req : Sexp) : Option Sexp :=
   match req with
+  | .list [.atom "bootstrapm", cols, orig] =>
+    match optMat? cols, rats? orig with
+    | some cols, some orig =>
+      if !(match cols with | [] => true | r :: rs => rs.all (fun x => x.length == r.length)) || cols.length != orig.length then some bad
+      else
+        let st := (cols.zip orig).map (fun co => Stats.colStatsM co.1 co.2)
+        some (.list [.list (st.map (fun s => .list [optOut s.mean, optOut s.median, optOut s.bias, optOut s.var, optOut s.rse2, optsOut s.dist])),
+                     .list ((Stats.covMatrixM cols).map optsOut)])
+    | _, _ => some bad
   | .list [.atom "bootstrap", cols, orig] =>
     match mat? cols, rats? orig with
     | some cols, some orig =>
